@@ -2239,8 +2239,15 @@ impl FunctionCompiler<'_> {
                     lambda,
                 };
 
-                assert!(self.tys.try_naive(loc.wrap(), self.world_bodies).is_ok());
-                let loc = loc.make_concrete(None);
+                // a lambda nested in an instantiation of a generic function
+                // belongs to that instantiation
+                let loc = match self_ty.as_ref() {
+                    Ty::ConcreteFunction { fn_loc, .. } => *fn_loc,
+                    _ => {
+                        assert!(self.tys.try_naive(loc.wrap(), self.world_bodies).is_ok());
+                        loc.make_concrete(None)
+                    }
+                };
 
                 let local_func = self.unnamed_func_to_local(self_ty, loc);
 
